@@ -16,11 +16,11 @@ A case is a history of operations on a small metamodel built in the case itself:
      and the link pairs, against lean/PyxModel/Attr.lean run by the driver command `(attr op…)`.
 
 Domain.  ASCII names; declared names distinct after upper-casing; association keys spelled as declared on the
-referential side; deletes address a non-referential attribute that currently holds a value; a constructor
-keyword for a REFERENTIAL attribute is spelled as in the association.  The two excluded situations are
-modelled in Lean (see Props/C10.lean, examples) and are generated only with VERIF_C10_STRICT=1, where D
-demands what the property text suggests (a delete under name X must not remove another attribute's value; a
-referential constructor keyword works in any letter case) — on the current code both fail, see tools/meta/C10.json.
+referential side.  Deletes address ANY attribute: one that holds a value (its value goes away), one that holds
+none or a referential one (D: no OTHER attribute may lose or change its value — signature
+delete-absent-removes-other-value); constructor keywords name non-referential and referential attributes in
+ANY letter case (D: a referential keyword in another spelling must not be rejected — signature
+ctor-ref-keyword-case).  Both were defects of the original code (repaired by fix: commits 2867bd3, 8edc1ab).
 """
 import itertools
 import os
@@ -29,22 +29,18 @@ import uuid
 from sexp import Sym, dumps
 
 PROP = 'C10'
-STRICT = os.environ.get('VERIF_C10_STRICT', '') not in ('', '0')
 RULE = ('(1) exhaustive: every history of length L (quick 3, thorough 4) over the alphabet {write fresh value, delete} x '
         'all 4 + 8 case patterns of a 2-letter and a 3-letter attribute name of one instance, every state observed '
-        'by reads under all 12 spellings (histories whose delete hits an empty cell are outside the domain and '
-        'skipped), plus length L+1 over the 2-letter name alone; (2) random: schemas of two classes with plain, '
+        'by reads under all 12 spellings (deletes of an empty cell included), plus length L+1 over the 2-letter '
+        'name alone; (2) random: schemas of two classes with plain, '
         'identifying and one referential attribute, mixed-case kinds, names and type names, histories of up to 40 '
-        'ops (new with positional/keyword mixes, set, del, reads, where_eq selections, relate/unrelate, serialize, '
+        'ops (new with positional/keyword mixes incl. referential keywords in any spelling, set, del of present, '
+        'absent and referential attributes, reads, where_eq selections, relate/unrelate, serialize, '
         'find) with an independently chosen spelling at every use; non-trivial = some cell was written under two '
         'different spellings and read under yet another; distinct = distinct op sequence')
 EXHAUSTIVE = {'quick': True, 'thorough': True}
 ASSUMPTIONS = ['names are ASCII identifiers (str.upper on ASCII); declared attribute names of a class are distinct '
                'after upper-casing; association keys on the referential side are spelled as declared',
-               'a delete addresses a non-referential attribute that currently holds a value (Class.__delattr__ on a '
-               'name without a matching __dict__ key deletes the LAST key of __dict__; modelled, outside the domain)',
-               'a constructor keyword for a referential attribute is spelled as in the association (MetaClass.new '
-               'compares it case-sensitively; another spelling raises MetaException; modelled, outside the domain)',
                'attribute names do not collide with Python-level attributes of xtuml.meta.Class']
 CHUNK = 6000
 CASE_TIMEOUT_S = 10
@@ -104,9 +100,6 @@ def _exhaustive(ctx):
                     ops.append(['set', 0, sp, 10 + step])
                     present[u] = True
                 else:
-                    if not present[u] and not STRICT:
-                        ok = False
-                        break
                     ops.append(['del', 0, sp])
                     present[u] = False
                 ops.append(['reads', 0, allsp])
@@ -161,11 +154,11 @@ def _random_case(r, maxlen):
     if with_assoc:
         ops.append(['assoc', respell(r, kb), ref_name, respell(r, ka), respell(r, a_attrs[0][0])])
     classes = {ka.upper(): (ka, a_attrs, None), kb.upper(): (kb, b_attrs, ref_name)}
-    insts = []            # (KIND, dirty)
+    insts = []            # KIND per instance
     present = {}          # (i, NAME) -> bool
 
     def pick_inst(kind=None):
-        c = [i for i, (k, _) in enumerate(insts) if kind is None or k == kind]
+        c = [i for i, k in enumerate(insts) if kind is None or k == kind]
         return r.choice(c) if c else None
 
     def gen_new():
@@ -176,16 +169,11 @@ def _random_case(r, maxlen):
             return ['new', kind + 'Q', [], []]                          # UnknownClass, no instance
         npos = r.choice([0, 0, 1, len(attrs), r.randint(0, len(attrs))])
         args = [_value(r, ty) for _, ty in attrs[:npos]]
-        kws, dirty = [], False
+        kws = []
         for nm, ty in attrs:
             if r.random() < 0.35:
-                if nm == ref:
-                    sp = nm
-                    if STRICT and r.random() < 0.5:
-                        sp = respell(r, nm)
-                        dirty = dirty or (sp != nm)
-                else:
-                    sp = respell(r, nm)
+                sp = respell(r, nm)
+                if nm != ref:
                     if r.random() < 0.15:                               # the same attribute under two spellings
                         kws.append([respell(r, nm), _value(r, ty)])
                 kws.append([sp, _value(r, ty)])
@@ -196,7 +184,7 @@ def _random_case(r, maxlen):
                 kw2.append([k, v])
         r.shuffle(kw2)
         i = len(insts)
-        insts.append((K, dirty))
+        insts.append(K)
         for nm, _ in attrs:
             present[(i, nm.upper())] = (nm != ref)
         return ['new', respell(r, kind), args, kw2]
@@ -210,7 +198,7 @@ def _random_case(r, maxlen):
         if i is None or what < 0.08:
             ops.append(gen_new())
             continue
-        K, dirty = insts[i]
+        K = insts[i]
         _, attrs, ref = classes[K]
         nm, ty = r.choice(attrs)
         if what < 0.40:
@@ -218,9 +206,9 @@ def _random_case(r, maxlen):
             if nm != ref:
                 present[(i, nm.upper())] = True
         elif what < 0.50:
-            cands = [a for a, _ in attrs if a != ref and present.get((i, a.upper())) and not dirty]
-            if STRICT and r.random() < 0.3:
-                cands = [a for a, _ in attrs]
+            cands = [a for a, _ in attrs if a != ref and present.get((i, a.upper()))]
+            if r.random() < 0.3:
+                cands = [a for a, _ in attrs]                           # also empty cells and the referential attribute
             if cands:
                 a = r.choice(cands)
                 ops.append(['del', i, respell(r, a)])
@@ -447,10 +435,9 @@ def run_impl(case):
                 if i is not None:
                     _oracle_new(orc, i, op, insts[i], exc, written)
                     if exc is not None and isinstance(exc, x.MetaException) and not isinstance(exc, x.RelateException):
-                        # in the domain the constructor only fails through the batch relate
-                        if STRICT:
-                            fail('ctor-ref-keyword-case', 'new(%r, %s) raised %s: a referential keyword is only '
-                                 'recognised in the association\'s own spelling' % (op[1], kwargs, type(exc).__name__), n)
+                        # the constructor only fails through the batch relate
+                        fail('ctor-ref-keyword-case', 'new(%r, %s) raised %s: a keyword naming a referential attribute '
+                             'in another letter case was rejected' % (op[1], kwargs, type(exc).__name__), n)
                         for a, _ in orc.decl(i)['attrs']:
                             orc.cells[(i, a.upper())] = UNKNOWN
                         orc.link[i] = UNKNOWN
@@ -497,9 +484,9 @@ def run_impl(case):
                     if dn in inst.__dict__ or any(k.upper() == dn.upper() for k in inst.__dict__):
                         fail('delete-ineffective', 'instance %d: after del under %r the value of %r is still stored'
                              % (i, sp, dn), n)
-                elif STRICT:
+                else:
                     # nothing to delete under this name: no OTHER attribute may lose or change its value
-                    stats['delete_outside_domain'] = stats.get('delete_outside_domain', 0) + 1
+                    stats['delete_of_empty_or_referential'] = stats.get('delete_of_empty_or_referential', 0) + 1
                     for a, _ in orc.decl(i)['attrs']:
                         want = orc.cells.get((i, a.upper()), UNKNOWN)
                         if want is UNKNOWN or want is ABSENT or orc.is_ref(i, a):
@@ -508,9 +495,6 @@ def run_impl(case):
                             fail('delete-absent-removes-other-value', 'instance %d: del under %r (no value stored under '
                                  'that name) removed or changed the value of %r' % (i, sp, a), n)
                             orc.cells[(i, a.upper())] = UNKNOWN
-                else:
-                    for a, _ in orc.decl(i)['attrs']:
-                        orc.cells[(i, a.upper())] = UNKNOWN
                 check_instance(i, n)
             elif nm == 'reads':
                 i = op[1]
